@@ -42,6 +42,16 @@ fn hostile<S: MlDsa>(seed: u64, scale: usize, out: &mut Out) {
         t.call("verify", "arbitrary pk/sig/message/context bytes", || json!({"pk": hx(&a), "sig": hx(&b), "m": hx(&c), "ctx": hx(&d), "mode": mode}),
                || { let k = S::pk_from(&pkx).expect("every pk-length string deserialises"); let r = S::verify(&k, &m, &sigx, &ctx, mode); let _ = S::internal_verify(&k, &m, &sigx); let _ = S::pk_bytes(&k); r });
     }
+    // a signature that DECODES, under contexts around the 255-byte limit, every mode
+    for n in [254usize, 255, 256, 257, 511, 512, 513] {
+        let ctx = p.bytes(n);
+        for mode in MODES {
+            let c2 = ctx.clone();
+            t.call("verify", "valid signature, context length around the limit", || json!({"ctxlen": n, "mode": mode}), || S::verify(&pk, b"m", &sig0, &c2, mode));
+            let c3 = ctx.clone();
+            t.call("sign+verify", "context length around the limit", || json!({"ctxlen": n, "mode": mode}), || S::sign(&sk, &mut ScriptRng::new(&[7u8; 32]), b"m", &c3, mode).is_ok());
+        }
+    }
     for (name, s2) in hint_mutants::<S>(&sig0, &mut p) {
         let s3 = s2.clone();
         t.call("verify", "hint-section malformations", || json!({"pk": hx(&pkb), "sig": hx(&s3), "what": name}), || S::verify(&pk, b"m", &s2, b"", "pure"));
